@@ -23,6 +23,10 @@ type ChainOpts struct {
 	// to (block version, tx index, field), so a column filled from the wrong
 	// field or left at its zero default is visible.
 	Distinct bool
+	// Rewards: every block ends its trace_block result with 1..Rewards reward traces (null transaction hash and
+	// position). EmptyEvery: blocks whose number is a multiple of it hold no transaction.
+	Rewards    int
+	EmptyEvery int
 }
 
 func addr(r *vk.RNG) []byte { return r.Bytes(20) }
@@ -52,6 +56,15 @@ func Content(o ChainOpts) simnode.Content {
 		}
 		r := vk.NewRNG(vk.Derive(o.Seed, b.Version))
 		ntx := r.Range(o.MinTxs, o.MaxTxs)
+		if o.EmptyEvery > 0 && b.Num%uint64(o.EmptyEvery) == 0 {
+			ntx = 0
+		}
+		if o.Rewards > 0 {
+			rr := vk.NewRNG(vk.Derive(o.Seed, b.Version, 0x4e3a4d))
+			for i, n := 0, rr.Range(1, o.Rewards); i < n; i++ {
+				b.Rewards = append(b.Rewards, simnode.Trace{From: addr(rr), Value: bigOf(rr, o.Distinct, b.Version*1000+900+uint64(i))})
+			}
+		}
 		for i := 0; i < ntx; i++ {
 			tag := b.Version*1000 + uint64(i)*10
 			tx := simnode.Tx{
